@@ -575,11 +575,21 @@ def writer_order(model, rep):
             raise AnalysisError("System.%s not found" % mname)
         if mname == "_get_childs_tree" and not any(isinstance(c, ast.Call) and isinstance(c.func, ast.Attribute) and c.func.attr == "bfs_successors" for c in ast.walk(fn)):
             raise AnalysisError("_get_childs_tree: the breadth-first successor walk is not found")
+        # where an order matters: what a loop / comprehension iterates over, what is returned, and what a dict / list is rebuilt from
+        ordered = []
+        for x in ast.walk(fn):
+            if isinstance(x, (ast.For, ast.comprehension)):
+                ordered.append(x.iter)
+            elif isinstance(x, ast.Return) and x.value is not None:
+                ordered.append(x.value)
+            elif isinstance(x, ast.Call) and isinstance(x.func, ast.Name) and x.func.id in ("dict", "list", "tuple") and x.args:
+                ordered.append(x.args[0])
+        inside = {id(y) for o in ordered for y in ast.walk(o)}
         for c in ast.walk(fn):
             if not isinstance(c, ast.Call):
                 continue
             nm = c.func.id if isinstance(c.func, ast.Name) else (c.func.attr if isinstance(c.func, ast.Attribute) else None)
-            if nm in ("sorted", "reversed", "set", "frozenset", "sort", "reverse", "shuffle"):
+            if nm in ("sort", "reverse", "shuffle") or (nm in ("sorted", "reversed", "set", "frozenset") and id(c) in inside):
                 ok = False
                 rep.violation("R3", "system.System.%s" % mname, "%s:%d" % (rel, c.lineno),
                               "the writer re-orders with %s(): the blocks of the saved document no longer follow the breadth-first walk (parent before child) that "
